@@ -55,6 +55,30 @@ def run(rep, tier):
                         "terminator" if name.startswith("after") else "(unterminated) line", obs[0].code, o.code, obs[0].err[:120], o.err[:120]),
                         {"src": t, "oracle": "layout invariance at the end of the file", "reference": group[0], "observed": o.brief()})
                     break
+    # a terminator in the middle of an expression: `;` and a line break give the same diagnostic (same text, position of the terminator)
+    from .. import layoutlib as LL
+    for i in range(60 if tier == "quick" else 900):
+        prog, _ = G.generate(rng.randrange(1 << 40), size=rng.choice([3, 6, 12]))
+        r = P.render(prog)
+        toks = [t for t in LL.toks_of(r)]
+        cand = [j for j in range(1, len(toks)) if toks[j - 1].kind not in P.CONT_KINDS and toks[j].line == toks[j - 1].line and toks[j - 1].text not in ("{", "}") and toks[j].text not in ("}",)]
+        if not cand:
+            continue
+        j = rng.choice(cand)
+        off = toks[j].offset
+        variants = [r.text[:off] + sep + r.text[off:] for sep in (";", "\n", " ;", "\r\n", ";;", "\n\n")]
+        obs = core.run_many([{"src": t} for t in variants])
+        rep.evaluations += len(variants)
+        rep.process_runs += len(variants)
+        rep.tally("end_of_file", "terminator_inside_a_statement", len(variants))
+        if any(o.timeout for o in obs):
+            continue
+        key = lambda o: (o.code, o.out, strip(o.err))
+        for t, o in zip(variants[1:], obs[1:]):
+            if o.died or key(o) != key(obs[0]):
+                rep.violation("C09/terminator-spelling", "a `;` and a line break at the same place are answered differently: exit %s / %s, stderr %r / %r" % (obs[0].code, o.code, obs[0].err[:160], o.err[:160]),
+                              {"src": t, "oracle": "newline = `;`", "reference": variants[0], "observed": o.brief()})
+                break
     lb = rep.cov.get("line_breaks", {})
     cont_kinds = {k[5:] for k in lb if k.startswith("cont:")}
     term_kinds = {k[5:] for k in lb if k.startswith("term:")}
